@@ -222,7 +222,7 @@ func verifC22Write(args []string) (res string) {
 		}
 		d := st.strm.OutDescCopy()
 		return "out=" + out + " p=" + verifC22FmtParams(d.Medias[0].Formats[0])
-	case <-time.After(10 * time.Second):
+	case <-time.After(60 * time.Second): // guard against a broken implementation only
 		return "timeout"
 	}
 }
